@@ -261,37 +261,29 @@ func checkC19(w *World, r *Report) {
 		}
 		r.Check(okSet, "membership.flag", hname+": task-exists flag", w.Pos(h.Pos()), "set only in the ReadJob callback of the requested job when ByName(requested task) != nil", "the task-exists flag is not (only) set when the requested job has the requested task")
 	}
-	// ---- KEY: one path function uses all three components
+	// ---- KEY: writer and reader open the same path expression, which uses all three components
 	fs := w.NamedType("taskctl", "FileOutputStore")
 	if fs != nil {
-		bp := w.FuncByRole("taskctl", "(*FileOutputStore).buildPath", func(f *ssa.Function) bool {
-			return recvIs(f, "FileOutputStore") && sigHas(f, []string{"string", "string", "string"}, []string{"string"})
-		})
-		if bp == nil {
-			r.Viol("key.path-function", "FileOutputStore: path function", "-", "no buildPath method: writer and reader cannot be shown to agree")
-		} else {
-			pr := w.EnumPaths(bp, EnumOpts{})
-			okP := false
+		exprs := map[string]string{}
+		for _, m := range []string{"Writer", "Reader"} {
+			f := w.FuncByName("taskctl", "(*FileOutputStore)."+m)
+			if f == nil {
+				continue
+			}
+			opens := findCalls(f, func(n string, _ *ssa.CallCommon) bool {
+				return n == "os.Create" || n == "os.Open" || n == "os.OpenFile"
+			})
 			desc := ""
-			for _, p := range pr.Paths {
-				if len(p.Ret) == 1 {
-					desc = p.Ret[0]
-					okP = strings.HasPrefix(desc, "path.Join([recv.path,arg0,") && strings.Contains(desc, "[arg1,arg2]") && strings.Contains(desc, "%s-%s")
-				}
+			okP := len(opens) == 1
+			if okP {
+				desc = w.APThrough(opens[0].Common().Args[0])
+				okP = strings.HasPrefix(desc, "path.Join([recv.path,arg0,") && strings.Contains(desc, "[arg1,arg2]") && strings.Contains(desc, "%s-%s")
 			}
-			r.Check(okP, "key.path-function", FuncName(bp)+": <base>/<job>/<task>-<stream>.log", w.Pos(bp.Pos()), "the path is "+desc, "the log path "+desc+" does not use all of (base, job id, task name, stream): output of different jobs, tasks or streams shares a file")
-			for _, m := range []string{"Writer", "Reader"} {
-				f := w.FuncByName("taskctl", "(*FileOutputStore)."+m)
-				if f == nil {
-					continue
-				}
-				okC := false
-				for _, ci := range findCalls(f, func(_ string, c *ssa.CallCommon) bool { return c.StaticCallee() == bp }) {
-					a := ci.Common().Args
-					okC = w.AP(a[1]) == "arg0" && w.AP(a[2]) == "arg1" && w.AP(a[3]) == "arg2"
-				}
-				r.Check(okC, "key.same-function", FuncName(f)+": path built by buildPath(jobID, taskName, outputName)", w.Pos(f.Pos()), "writer and reader use the same key function with their parameters in order", FuncName(f)+" does not build its path with buildPath(jobID, taskName, outputName): what is written cannot be read back")
-			}
+			exprs[m] = desc
+			r.Check(okP, "key.path-function", FuncName(f)+": opens <base>/<job>/<task>-<stream>.log", w.Pos(f.Pos()), "the one file opened is "+desc, FuncName(f)+" opens "+desc+" ("+fmt.Sprint(len(opens))+" open calls), which does not use all of (base, job id, task name, stream): output of different jobs, tasks or streams shares a file")
+		}
+		if len(exprs) == 2 {
+			r.Check(exprs["Writer"] == exprs["Reader"] && exprs["Writer"] != "", "key.same-function", "FileOutputStore: writer and reader paths agree", "-", "both open "+exprs["Writer"], "the writer opens "+exprs["Writer"]+" but the reader opens "+exprs["Reader"]+": what is written cannot be read back")
 		}
 	}
 	r.Floor("labels.run", 2)
